@@ -20,7 +20,7 @@ kinds! {
     // guards
     Pin, Unpin, Reactivate, ReactAfter, Flush, PanicCs,
     // Rc
-    New, NewMany, NewIter, Clone, DropRc, Finalize, Downgrade, WeakMany, SnapOf, RcTag, DerefRc,
+    New, NewMany, NewIter, IterOpen, IterNext, IterClose, Clone, DropRc, Finalize, Downgrade, WeakMany, SnapOf, RcTag, DerefRc,
     // Snapshot
     Counted, SnapDown, SnapTag, DerefSnap,
     // AtomicRc cells
@@ -49,6 +49,9 @@ kinds! {
 /// | New | dst rc | extra-from rc (99 none) | rank class (0 = random rank) | 0 plain-Rc field; 1 AtomicRc::from(&Rc), 2 AtomicRc::from(Rc), 3 AtomicWeak::from(&Rc), 4 AtomicWeak::from(&Weak) |
 /// | NewMany | n | | | |
 /// | NewIter | count index | take | bit 0 abort?; bits 1-2: 1 nth(1), 2 nth(count), 3 step_by(2) over the rest | guard |
+/// | IterOpen | count index | take | iterator slot (0-1) | | (the iterator stays open across later ops: its shares are owners that no Rc stands for)
+/// | IterNext | iterator slot | | | |
+/// | IterClose | iterator slot | abort? | guard | |
 /// | Clone | src rc | dst rc | | |
 /// | DropRc | rc | | | |
 /// | Finalize | rc | guard | | |
